@@ -28,6 +28,7 @@ import PyAbel.Model.Basex
 import PyAbel.Model.DaunCache
 import PyAbel.Gen.Tables
 import PyAbel.Model.Window
+import PyAbel.Model.Grid
 open PyAbel PyAbel.Proto
 
 def axOfNat : Nat → Option SymAxis
@@ -380,6 +381,19 @@ def handle (toks : List String) : String :=
     | some rows, some cols, some orow, some ocol, some row, some col =>
       let p := indexCoords rows cols orow ocol row col; s!"ok {p.1} {p.2}"
     | _, _, _, _, _, _ => "bad-op"
+  -- isuniform n <r (n)>  →  1 / 0: abel.direct.is_uniform_sampling of the grid
+  | "isuniform" :: n :: rest =>
+    match n.toNat?, parseFloats rest with
+    | some n, some xs =>
+      if xs.size ≠ n then "bad-op" else
+      s!"ok {if Grid.isUniform (1e-13 : Float) n (fun i => xs.getD i 0.0) then 1 else 0}"
+    | _, _ => "bad-op"
+  -- idx0 rows cols row col → x y with the default pole (origin=None)
+  | ["idx0", rows, cols, row, col] =>
+    match rows.toNat?, cols.toNat?, row.toNat?, col.toNat? with
+    | some rows, some cols, some row, some col =>
+      let p := indexCoordsDefault rows cols row col; s!"ok {p.1} {p.2}"
+    | _, _, _, _ => "bad-op"
   -- radint kind nt R dt <T (nt)> <P row (nt)> → one radial bin of radial_intensity
   | "radint" :: kind :: nt :: R :: dt :: rest =>
     match kind.toNat?, nt.toNat?, parseFloat R, parseFloat dt, parseFloats rest with
